@@ -32,7 +32,7 @@ func init() {
 		Assumptions: []string{e2assume},
 		MinCounters: map[string]int64{"events": 1000}})
 	fw.Reg(&fw.Spec{ID: "C15", Level: "exploration", Quick: 520, Thorough: 10000,
-		Rule: "rule sets in which every rule uses the same local names: writers (assign own tag, hold, return it), readers-before-write (must fail), run through all 21 engine methods and pool mirrors, repeated calls on the same engine, DAGs with the same rule twice in one layer; distinct by (method, shape, trace)",
+		Rule: "rule sets in which every rule uses the same local names: writers (assign own tag, hold, return it), readers-before-write (must fail), run through all 21 engine methods and pool mirrors, repeated calls on the same engine, DAGs with the same rule twice in one layer; plus a leak probe per case: a rule that assigns a local only in the one execution for which once() is true and then reads it - every other execution of that rule (later call on the same engine in every model, concurrent executions of the rule in one DAG layer, later and overlapping requests on a pool) must fail at the read; distinct by (method, shape, trace) and (probe scenario, reads)",
 		Assumptions: []string{e2assume},
-		MinCounters: map[string]int64{"events": 1000}})
+		MinCounters: map[string]int64{"events": 1000, "leak_probe_rounds": 2000}})
 }
